@@ -1,6 +1,9 @@
 import Jose.Lemmas.Entity
 import Jose.Jws
 import Jose.Props.C10
+import Jose.Props.C03
+import Jose.Jwe
+import Jose.SugTable
 /-
   C15 — header merge precedence (part 1: the merge itself; part 2, "the algorithm used
   is the one recorded", is stated over the JWS/JWE producing models below).
@@ -9,7 +12,7 @@ set_option linter.unusedSimpArgs false
 set_option linter.unusedVariables false
 
 namespace Jose.Props.C15
-open Jose Jose.Entity Jose.Json Jose.Jws Jose.Tables
+open Jose Jose.Entity Jose.Json Jose.Jws Jose.Tables Jose.Props.C03
 
 /-- C15 (JWS): a protected parameter hides an unprotected one of the same name -/
 theorem precedence_jws (sig h : Json) (hh : jwsHdr sig = some h) (name : String) :
@@ -145,6 +148,86 @@ theorem ecdsa_names_table :
 /-- non-vacuity: a P-384 key is refused under ES256 whatever the primitives say -/
 example (P : Prims) : sigLeaf P "ES256" (.obj [("kty", .str "EC"), ("crv", .str "P-384"), ("x", .str "AA"), ("y", .str "AA")]) = none := by
   simp [sigLeaf, family, onAlgCurve, Json.getStr?, Json.get?, Json.strVal?, lookup]
+
+
+/-! ### inference: the model's suggestion functions are the code's hooks
+
+  `SugTable.rows` is regenerated on every run by calling the suggestion hooks of the library built
+  from the working tree (`sign.sug`, `wrap.alg`, `encr.sug`: first non-NULL answer in registry
+  order, exactly what `find_alg` / `jose_jwe_enc_cek_io` consult; `wrap.enc` per algorithm) on a
+  fixed grid of probe keys: oct keys of 18 lengths around every threshold, undecodable / missing /
+  wrongly typed members, every curve name and junk, RSA moduli around the size classes, keys naming
+  every kind of algorithm (valid, of another kind, junk, wrong case), passwords of every length
+  class, non-object keys.  The four theorems say the model computes the same answers on the whole
+  grid; an edit of a threshold, of a name list or of the registry order in the C breaks them. -/
+
+theorem sug_sign_is_code : SugTable.rows.all (fun r => Jws.sigSug r.key == r.sign) = true := by decide +kernel
+
+theorem sug_wrap_alg_is_code : SugTable.rows.all (fun r => Jwe.wrapAlgSug r.key == r.walg) = true := by decide +kernel
+
+theorem sug_encr_is_code :
+    SugTable.rows.all (fun r => !r.key.isObject || Jwe.encrSug r.key == r.encr) = true := by decide +kernel
+
+theorem sug_wrap_enc_is_code :
+    SugTable.rows.all (fun r => r.wenc.all (fun ne => Jwe.wrapEncOf ne.1 r.key == ne.2)) = true := by decide +kernel
+
+/-- the grid is not trivial: it contains keys for which each hook answers, and keys for which it does not -/
+example : (SugTable.rows.any (fun r => r.sign.isSome) && SugTable.rows.any (fun r => r.sign.isNone) &&
+           SugTable.rows.any (fun r => r.walg.isSome) && SugTable.rows.any (fun r => r.encr.isSome) &&
+           decide (SugTable.rows.length ≥ 100)) = true := by decide +kernel
+
+/-- **C15 (JWS, applied = recorded).**  Whatever `jose_jws_sig` appends: the merged header of the
+    appended entry names an algorithm `a`, and the signature stored in it is the output of the
+    signing leaf *of that very algorithm* over protected '.' payload — whether the caller named
+    it in either header, the key did, or it was inferred (and then written to the protected header). -/
+theorem jws_applied_is_recorded (P : Prims) (s jwk : Json) (pay rnd : Bs) (e : Json)
+    (h : sigEntryObj P s jwk pay rnd = some e)
+    (hload : ∀ a s1 p, findAlgSig s jwk = some (a, s1) → s1.get? "protected" = some (.obj p) → LoadDump p) :
+    ∃ a hdr f pre sv, jwsHdr e = some hdr ∧ optStr hdr "alg" = some (some a.name) ∧
+      findSign a.name = some a ∧ sigLeaf P a.name jwk = some f ∧ prefixOf e = some pre ∧
+      f (pre ++ pay) rnd = some sv ∧ e.get? "signature" = some (B64.enc sv) := by
+  obtain ⟨hobj, a, s1, kvs2, f, pre, sv, h1, h2, h3, h4, h5, rfl, h7⟩ := sigEntry_spec P s jwk pay rnd e h
+  obtain ⟨g1, ⟨hdr1, g2, g3⟩, _, _, _, _, _⟩ := findAlgSig_spec s jwk a s1 hobj h1
+  have hhdr := jwsHdr_after_encode s1 kvs2 (B64.enc sv) h2 (fun p hp => hload a s1 p h1 hp)
+  exact ⟨a, hdr1, f, pre, sv, by rw [hhdr]; exact g2, g3, g1, h3, h7, h5, by simp [get?, lookup_setKV_same]⟩
+
+/-- a caller-supplied algorithm is never silently replaced: if the template's merged header names
+    `n`, the entry is produced with `n` or not at all -/
+theorem jws_supplied_alg_kept (s jwk : Json) (a : AlgRec) (s1 hdr : Json) (n : String) (hobj : s.isObject = true)
+    (hh : jwsHdr s = some hdr) (hn : hdr.getStr? "alg" = some n)
+    (h : findAlgSig s jwk = some (a, s1)) : a.name = n ∧ s1 = s := by
+  simp only [findAlgSig, hh, Option.bind_some, chooseAlg, hn, Option.bind_eq_some_iff, Option.map_eq_some_iff] at h
+  obtain ⟨r, ⟨a2, hf, rfl⟩, kalg, _, hrest⟩ := h
+  split at hrest
+  · simp at hrest
+  · split at hrest
+    · simp at hrest
+    · simp only [Option.some.injEq, Prod.mk.injEq] at hrest
+      obtain ⟨rfl, rfl⟩ := hrest
+      exact ⟨findSign_name n _ hf, rfl⟩
+
+open Jose.Jwe in
+/-- **C15 (zip, decryption).**  Whether the decryptor inserts an inflate stage is a function of the
+    *protected* header alone: `zip` in the shared or per-recipient header has no effect -/
+theorem dec_zip_only_protected (jwe cek : Json) (a : AlgRec) (z : Bool) (h : decCekSetup jwe cek = some (a, z)) :
+    z = ((B64.decLoad (jwe.get? "protected")).bind (·.getStr? "zip")).isSome := by
+  simp only [decCekSetup, Option.bind_eq_some_iff] at h
+  obtain ⟨hdr, _, halg, _, kalg, _, n, _, a', _, hrest⟩ := h
+  split at hrest
+  · simp at hrest
+  · split at hrest
+    · rename_i zz hz
+      split at hrest
+      · simp only [Option.some.injEq, Prod.mk.injEq] at hrest; rw [← hrest.2, hz]; rfl
+      · simp at hrest
+    · rename_i hz
+      simp only [Option.some.injEq, Prod.mk.injEq] at hrest; rw [← hrest.2, hz]; rfl
+
+open Jose.Jwe in
+/-- **C15 (zip, encryption).**  Likewise for the encryptor: two objects with the same protected
+    header are compressed alike, whatever their other headers say -/
+theorem enc_zip_only_protected (j j' : Json) (h : j.get? "protected" = j'.get? "protected") : zipOf j = zipOf j' := by
+  simp only [zipOf, h]
 
 /-- non-vacuity -/
 example : jwsHdr (.obj [("protected", .obj [("alg", .str "P")]), ("header", .obj [("alg", .str "H"), ("kid", .int 1)])])
